@@ -22,4 +22,9 @@ def monitorSrc12 : List (String × String) :=
   [("memoizer.wait", waitSrc), ("memoizer.waitToGrow", waitToGrowSrc), ("memoizer.setData", setDataSrc),
    ("memoizer.run", run12Src), ("newMemoizeSpec", newMemoSrc)]
 
+/-- every explicit `panic(` in non-test code, with its enclosing function (G6) -/
+def panicSites1 : List String := ["Number.IteratorAt: panic(\"posit must be non-negative\")", "Number.WithSignificant: panic(\"limit must be non-negative\")", "checkNumDenom: panic(\"Denominator must be positive\")", "checkNumDenom: panic(\"Numerator must be non-negative\")", "memoizer.IteratorAt: panic(\"index must be non-negative\")", "newFormatter: panic(\"sigDigits must be >= exponent\")"]
+def panicSites2 : List String := ["Number.WithSignificant: panic(\"limit must be non-negative\")", "checkNumDenom: panic(\"Denominator must be positive\")", "checkNumDenom: panic(\"Numerator must be non-negative\")", "memoizer.IteratorAt: panic(\"index must be non-negative\")", "newFormatter: panic(\"sigDigits must be >= exponent\")"]
+def panicSites3 : List String := ["FiniteNumber.WithSignificant: panic(\"limit must be non-negative\")", "checkNumDenom: panic(\"Denominator must be positive\")", "checkNumDenom: panic(\"Numerator must be non-negative\")", "memoizer.IteratorAt: panic(\"index must be non-negative\")", "memoizer.Scan: panic(\"index must be non-negative\")", "memoizer.ScanValues: panic(\"index must be non-negative\")", "newFormatter: panic(\"sigDigits must be >= exponent\")"]
+
 end Sqroot.Expect
